@@ -102,8 +102,18 @@ type Prover struct {
 	DrawBound func(v ssa.Value) (ssa.Value, bool)
 	// NonNegResult, when set, reports calls whose integer result is >= 0 and
 	// optionally an upper bound value (result <= upper).
+	// Canon maps a load to the representative of its class of loads that
+	// provably yield the same value (see StableLoads).
+	Canon map[ssa.Value]ssa.Value
 	depth int
 	Trace []string
+}
+
+func (pv *Prover) canon(v ssa.Value) ssa.Value {
+	if c, ok := pv.Canon[v]; ok {
+		return c
+	}
+	return v
 }
 
 // NewProver creates a prover for fn.
@@ -143,6 +153,7 @@ func intInfo(t types.Type) (bits int, unsigned bool, ok bool) {
 
 // Form linearises an integer SSA value.
 func (pv *Prover) Form(v ssa.Value) Lin {
+	v = pv.canon(v)
 	switch x := v.(type) {
 	case *ssa.Const:
 		if c, ok := ConstInt(x); ok {
@@ -195,7 +206,7 @@ func (pv *Prover) Form(v ssa.Value) Lin {
 }
 
 func (pv *Prover) lenForm(kind string, arg ssa.Value) Lin {
-	arg = StripType(arg)
+	arg = pv.canon(StripType(arg))
 	switch s := arg.(type) {
 	case *ssa.Slice:
 		if kind == "len" {
